@@ -632,6 +632,16 @@ impl<T: Config> P2PSession<T> {
                 .expect("Missing local input while calling advance_frame().");
             let actual_frame = self.sync_layer.add_local_input(handle, player_input);
             if actual_frame != NULL_FRAME {
+                // A delayed first input makes the queue bridge the frames before it with blank
+                // inputs. Hand those to the remote peers as well: with several local players of
+                // different delays the earlier frames would otherwise never become complete, the
+                // first packet would start at a later frame and the remotes would replace the
+                // other local players' real inputs for the skipped frames with blanks.
+                if self.local_connect_status[handle].last_frame == NULL_FRAME {
+                    for frame in 0..actual_frame {
+                        self.queue_outgoing_local_input(handle, PlayerInput::blank_input(frame));
+                    }
+                }
                 let queued_input = PlayerInput::new(actual_frame, player_input.input);
                 self.local_connect_status[handle].last_frame = queued_input.frame;
                 self.queue_outgoing_local_input(handle, queued_input);
